@@ -81,6 +81,7 @@ pub fn check_font(data: &[u8]) -> (Problems, usize) {
     for t in REQUIRED { if !font.has(t) { out.push(("required-table-missing".into(), String::from_utf8_lossy(*t).to_string())); } }
     let nodes = traverse_all(&font, &mut out);
     if out.iter().any(|(s, _)| s == "required-table-missing") { return (out, nodes); }
+    if let Ok(head) = font.f.head() { let u = head.units_per_em(); if !(16..=16384).contains(&u) { out.push(("head-units-per-em-out-of-range".into(), format!("{u}"))); } }
     let n = font.num_glyphs() as usize;
     if n == 0 { out.push(("no-glyphs".into(), String::new())); return (out, nodes); }
     // glyph counts
